@@ -98,7 +98,13 @@ func (g *Gen) callSiteClauses(label string, n int, args []TV, pos token.Pos) {
 					continue
 				}
 			}
-			g.oblige("assert", fmtf("%s/assert@%s#%d.%d", g.fnLabel(), label, n, k), t, cl.Props, cl.Text, pos)
+			oname := fmtf("%s/assert@%s#%d.%d", g.fnLabel(), label, n, k)
+			if cl.Label != "" {
+				// named by its label, so that adding a clause for the same call site elsewhere does
+				// not rename it (known findings and replays are matched by obligation name)
+				oname = fmtf("%s/assert@%s#%d.%s", g.fnLabel(), label, n, cl.Label)
+			}
+			g.oblige("assert", oname, t, cl.Props, cl.Text, pos)
 			g.assume(t)
 		}
 	}
@@ -558,6 +564,12 @@ func (g *Gen) appendOp(cc *ssa.CallCommon, name string) string {
 	inPlace := fmtf("(select (select %s (s_arr %s)) j)", E, s)
 	g.assume(fmtf("(forall ((j Int)) (! (and (=> (and (<= %s j) (< j %s)) (= (select %s j) %s)) (=> (and (<= %s j) (< j %s)) (= (select %s j) %s)) (=> (and (not %s) (or (< j %s) (>= j %s))) (= (select %s j) %s))) :pattern ((select %s j))))",
 		roff, mid, A, oldElem, mid, end, A, newElem, grow, roff, end, A, inPlace, A))
+	// the same facts, reachable from a read of the OLD array (so that "x is in s" carries over to
+	// the result without the solver having to guess an index), and the first appended element as a
+	// ground fact
+	g.assume(fmtf("(forall ((k Int)) (! (=> (and (<= (s_off %s) k) (< k (+ (s_off %s) (s_len %s)))) (= (select %s (+ %s (- k (s_off %s)))) (select (select %s (s_arr %s)) k))) :pattern ((select (select %s (s_arr %s)) k))))",
+		s, s, s, A, roff, s, E, s, E, s))
+	g.assume(fmtf("(=> (> %s (s_len %s)) (= (select %s %s) %s))", newLen, s, A, mid, srcAt("0")))
 	g.set(key, app("store", E, rarr, A))
 	return r
 }
